@@ -134,6 +134,28 @@ STRENGTHENED = {
     'C20-w5-c20-m2': 'platform.system() reporting Windows / Darwin / Linux',
     'C20-w5-c20-m3': 'two devices with the same serial number, one transport each, used in turn; clause RaisesOnlyForACause',
     # ---- round 6 (re-entrancy, iteration protocols, time arithmetic, resource hygiene on error paths, interpreter-level corners)
+    'C01-w8-c01-m1': 'reported by C19: one queue 5000 packets deep (a flow-controlled adbd never parks that many for one stream)',
+    'C01-w8-c01-m2': 'a caller\'s subclass that overrides the public streaming_shell(): shell() / exec_out() still return what the device wrote',
+    'C03-w8-c03-m1': 'payloads above 4 KiB under fragmentation: the TYPE of what the caller is handed is compared with unfragmented delivery, not only its value',
+    'C04-w8-c04-m1': 'reported by C06: a stream kept open across 300 abandoned streams, its CLSE read by another operation',
+    'C04-w8-c04-m2': 'monitor clause C04.CloseUnanswered; commands with a whole-command limit on a transport whose every call takes time',
+    'C04-w8-c04-m3': 'reported by C10: AdbSyncOp rows in which the device closes the stream INSTEAD of acknowledging the request',
+    'C06-w8-c06-m2': 'exploration configs L / M: a pull whose local sink raises while the device still has a WRITE in flight, next to other operations (line-level preemption in read())',
+    'C07-w8-c07-m2': 'reported by C10: a service that sends the status of every accepted file twice, then rejects a later file of the directory',
+    'C08-w8-c08-m1': 'the same session in child interpreters started with -O and -OO (assert statements compiled away)',
+    'C08-w8-c08-m2': 'a slow healthy link: a quiet spell before every packet and a trickling payload, each shorter than the read timeout, together longer',
+    'C09-w8-c09-m1': 'device paths in decomposed / compatibility Unicode forms: the device is asked for exactly the code points given',
+    'C09-w8-c09-m2': 'not reachable by a legal device for list/stat (see judgement calls); reported by C10 on pushes',
+    'C09-w8-c09-m3': 'WRITEs without payload in the packetisation of sync replies (cuts=empties)',
+    'C12-w8-c12-m1': 'reported by C01 / C06: a generator of the previous connection advanced while a stream of the new one is in flight',
+    'C12-w8-c12-m3': 'a subclass whose close() says good-bye with a command: reconnect without close() after a fault',
+    'C13-w8-c13-m3': 'refused pulls aimed at a folder that does not exist (str / bytes / pathlib): nothing may appear on disk',
+    'C15-w8-c15-m2': 'a task cancelled in the middle of a message (short writes, a second sender queued): no write after the cancellation except the second sender\'s',
+    'C15-w8-c15-m3': 'EINTR (InterruptedError) among the fault kinds, at every index of a short-written buffer',
+    'C18-w8-c18-m1': 'connect(None), close(), connect(0.5), then a read without a timeout that must wait',
+    'C18-w8-c18-m2': 'the port given as text, with timeouts on the way',
+    'C18-w8-c18-m3': 'a write that finds the send buffer full while inbound bytes are pending; the peer makes room within the timeout',
+    'C19-w8-c19-m3': 'reported by C06: tour replay (the store no longer matches the as-built model after a generator is closed)',
     'C01-w7-c01-m2': 'shell / exec_out / streaming_shell with every argument given by position in the documented order, raw output asked for',
     'C02-w7-c02-m3': 'reported by C15: sendall-style transports (bulk_write returns None) with messages above 64 KiB',
     'C03-w7-c03-m2': 'a polling transport that reports "nothing yet" 1500 times in a row at one point of the stream, then delivers the rest',
